@@ -410,7 +410,10 @@ func (w *W) crossCheck(h *hll.HyperLogLog, got uint64, b []byte, after int, det 
 	c := w.c
 	var rb *hll.HyperLogLog
 	sum := vlib.HashBytes(b)
-	if pv := vlib.Catch(func() { rb = hll.BuildHyperLogLog(b) }); pv != nil || rb == nil || vlib.HashBytes(b) != sum {
+	// how the bytes are handed over (as they are / as a window of a larger buffer) is a function
+	// of the case, so that a replay does the same
+	var pv interface{}
+	if rb, pv = w.build(b, int(got/4%6), det); pv != nil || rb == nil || vlib.HashBytes(b) != sum {
 		d := det()
 		d["bytes"] = vlib.Hex(b)
 		c.Fail("Build:roundtrip", fmt.Sprintf("BuildHyperLogLog(GetBytes()) failed (or wrote to its argument): %v", pv), d)
@@ -564,7 +567,8 @@ func (w *W) checkBuild(h *hll.HyperLogLog, det func() map[string]interface{}) *h
 	b := h.GetBytes()
 	keep := append([]byte(nil), b...)
 	var h2 *hll.HyperLogLog
-	if pv := vlib.Catch(func() { h2 = hll.BuildHyperLogLog(b) }); pv != nil || h2 == nil {
+	var pv interface{}
+	if h2, pv = w.build(b, int(vlib.HashBytes(keep)%6), det); pv != nil || h2 == nil {
 		d := det()
 		d["bytes"] = vlib.Hex(keep)
 		w.c.Fail("Build:roundtrip", fmt.Sprintf("BuildHyperLogLog(GetBytes()) failed: %v", pv), d)
@@ -876,6 +880,10 @@ func main() {
 		for j := range parts {
 			before[j] = append([]byte(nil), parts[j].GetBytes()...)
 		}
+		sent := w.newSentinels(r, p)
+		mg := func(recv *hll.HyperLogLog, ops ...*hll.HyperLogLog) *hll.HyperLogLog {
+			return w.merge(r, sent, recv, ops, det)
+		}
 		inputsIntact := func(after string) {
 			for j := range parts {
 				if !bytes.Equal(parts[j].GetBytes(), before[j]) {
@@ -905,7 +913,7 @@ func main() {
 			}
 		}
 		// union, byte for byte
-		merged := parts[0].Merge(parts[1:]...)
+		merged := mg(parts[0], parts[1:]...)
 		same("Merge(parts...)", merged, ub)
 		inputsIntact("Merge")
 		// against the model too (the union counter itself was checked against it above)
@@ -927,29 +935,46 @@ func main() {
 		for _, j := range perm[1:] {
 			rest = append(rest, parts[j])
 		}
-		same(fmt.Sprintf("commutativity: operands in order %v", perm), parts[perm[0]].Merge(rest...), ub)
+		same(fmt.Sprintf("commutativity: operands in order %v", perm), mg(parts[perm[0]], rest...), ub)
 		// associativity: left fold and right fold of pairwise merges
 		left := parts[0]
 		for j := 1; j < k; j++ {
-			left = left.Merge(parts[j])
+			left = mg(left, parts[j])
 		}
 		same("associativity: ((a+b)+c)+…", left, ub)
 		right := parts[k-1]
 		for j := k - 2; j >= 0; j-- {
-			right = parts[j].Merge(right)
+			right = mg(parts[j], right)
 		}
 		same("associativity: a+(b+(c+…))", right, ub)
+		// the caller keeps all parts in one slice and folds a few at a time: every operand list is a
+		// window of that slice, with the parts still to come in its spare capacity
+		if k >= 3 {
+			all := append([]*hll.HyperLogLog(nil), parts...)
+			step := 1 + r.Intn(k-2)
+			acc := all[0]
+			for lo := 1; lo < k && acc != nil; lo += step {
+				acc = acc.Merge(all[lo:minInt(lo+step, k)]...)
+			}
+			same(fmt.Sprintf("chunked fold: parts[lo:lo+%d] at a time out of one slice", step), acc, ub)
+			for j := range all {
+				if all[j] != parts[j] {
+					c.Fail("Merge:writes-callers-slice", fmt.Sprintf("p=%d: folding the caller's slice of %d parts %d at a time (acc.Merge(all[lo:hi]...)) replaced element %d of that slice", p, k, step, j), det())
+				}
+			}
+			c.Count("chunked_folds", 1)
+		}
 		// idempotence
 		j0 := r.Intn(k)
-		same("idempotence: a+a", parts[j0].Merge(parts[j0]), before[j0])
-		same("idempotence: a+a+a", parts[j0].Merge(parts[j0], parts[j0]), before[j0])
-		same("Merge() without operands", parts[j0].Merge(), before[j0])
+		same("idempotence: a+a", mg(parts[j0], parts[j0]), before[j0])
+		same("idempotence: a+a+a", mg(parts[j0], parts[j0], parts[j0]), before[j0])
+		same("Merge() without operands", mg(parts[j0]), before[j0])
 		if merged != nil {
-			same("idempotence: union+union", merged.Merge(merged), ub)
-			same("absorption: union+part", merged.Merge(parts[j0]), ub)
+			same("idempotence: union+union", mg(merged, merged), ub)
+			same("absorption: union+part", mg(merged, parts[j0]), ub)
 		}
-		same("identity: a+empty", parts[j0].Merge(hll.NewHyperLogLogInt(uint32(p))), before[j0])
-		same("identity: empty+a", hll.NewHyperLogLogInt(uint32(p)).Merge(parts[j0]), before[j0])
+		same("identity: a+empty", mg(parts[j0], hll.NewHyperLogLogInt(uint32(p))), before[j0])
+		same("identity: empty+a", mg(hll.NewHyperLogLogInt(uint32(p)), parts[j0]), before[j0])
 		inputsIntact("the commutativity/associativity/idempotence merges")
 		// the result is a counter of its own: offering to it does not reach the inputs
 		if merged != nil {
@@ -968,7 +993,7 @@ func main() {
 		}
 		// AddAll: in-place union, the argument untouched
 		if k >= 2 {
-			x := hll.BuildHyperLogLog(before[0])
+			x, _ := w.build(before[0], i, det)
 			if x != nil {
 				xm := pm[0].clone()
 				if i%3 != 0 { // two thirds: the receiver was observed before the in-place merge
@@ -982,8 +1007,9 @@ func main() {
 				inputsIntact("AddAll")
 			}
 		}
+		w.sentinelsIntact(sent, det)
 		c.Count("merges", 1)
-		c.Eval(12)
+		c.Eval(13)
 		c.SetAdd("merge_parts", fmt.Sprint(k))
 		if n > 0 {
 			c.DistinctBytes(ub)
@@ -1013,14 +1039,15 @@ func main() {
 			return map[string]interface{}{"precision_a": pa, "precision_b": pb, "items_a": len(ia), "items_b": len(ib)}
 		})
 		var res *hll.HyperLogLog
-		pv := vlib.Catch(func() { res = a.Merge(b) })
+		sent := w.newSentinels(r, pa)
+		pv := vlib.Catch(func() { res = w.merge(r, sent, a, []*hll.HyperLogLog{b}, det) })
 		if pv == nil && res != nil {
 			c.Fail("Merge:precision-mismatch-accepted", fmt.Sprintf("Merge of a precision-%d counter with a precision-%d counter returned a counter (estimate %d) instead of failing", pa, pb, res.Cardinality()), det())
 		} else {
 			c.Count("mismatches_rejected", 1)
 		}
 		// same size first, mismatch later in the operand list
-		pv = vlib.Catch(func() { res = a.Merge(hll.NewHyperLogLogInt(uint32(pa)), b) })
+		pv = vlib.Catch(func() { res = w.merge(r, sent, a, []*hll.HyperLogLog{hll.NewHyperLogLogInt(uint32(pa)), b}, det) })
 		if pv == nil && res != nil {
 			c.Fail("Merge:precision-mismatch-accepted", fmt.Sprintf("Merge(p%d, p%d, p%d) returned a counter instead of failing", pa, pa, pb), det())
 		} else {
@@ -1036,6 +1063,7 @@ func main() {
 				c.Fail("Merge:modifies-input", "a rejected AddAll changed the receiver", det())
 			}
 		}
+		w.sentinelsIntact(sent, det)
 		if !bytes.Equal(a.GetBytes(), ba) || !bytes.Equal(b.GetBytes(), bb) {
 			c.Fail("Merge:modifies-input", fmt.Sprintf("a rejected merge (p%d with p%d) changed an input", pa, pb), det())
 		}
@@ -1087,6 +1115,9 @@ func main() {
 		c.DistinctBytes(h.GetBytes())
 	})
 
+	// (5b) the byte-array hashes: functions of the bytes in the argument, writing nothing
+	c.Cases("hash-bytes", c.N(520, 10400), w.hashBytes)
+
 	// (6) observations interleaved with mutations, on the same objects -------------------------
 	c.Cases("history", c.N(2600, 52000), w.history)
 
@@ -1110,6 +1141,10 @@ func main() {
 		c.Floor("first_observation_of_"+kind, int64(c.N(160, 3200))/sh, c.Counter("first_observation_of_"+kind))
 	}
 	c.Floor("estimates_compared_with_rebuilt_counter", int64(c.N(8000, 160000))/sh, c.Counter("estimates_compared_with_rebuilt_counter"))
+	c.Floor("merge_calls_lent_window", int64(c.N(1500, 30000))/sh, c.Counter("merge_calls_lent_window"))
+	c.Floor("merge_calls_exact_capacity", int64(c.N(1500, 30000))/sh, c.Counter("merge_calls_exact_capacity"))
+	c.Floor("build_calls_lent_window", int64(c.N(5000, 100000))/sh, c.Counter("build_calls_lent_window"))
+	c.Floor("hash_calls_lent_window", int64(c.N(300, 6000))/sh, c.Counter("hash_calls_lent_window"))
 	c.Floor("median_sets", 20, c.Counter("median_sets"))
 	c.Floor("mismatches_rejected", 3, c.Counter("mismatches_rejected"))
 	c.Finish()
